@@ -598,6 +598,45 @@ func checkGhost(c *Ctx) {
 				}
 			}
 		}
+		// a result made by updating a copy of the receiver: the fields that are
+		// not written keep the receiver's values
+		for _, b := range fn.Blocks {
+			ret, isRet := b.Instrs[len(b.Instrs)-1].(*ssa.Return)
+			if !isRet || len(ret.Results) != 1 {
+				continue
+			}
+			ld, isLd := Unwrap(ret.Results[0]).(*ssa.UnOp)
+			if !isLd {
+				continue
+			}
+			al, isAl := ld.X.(*ssa.Alloc)
+			if !isAl || al.Referrers() == nil {
+				continue
+			}
+			for _, r := range *al.Referrers() {
+				if st, isSt := r.(*ssa.Store); isSt && st.Addr == ssa.Value(al) && st.Val == ssa.Value(fn.Params[0]) {
+					if _, has := got["begin"]; !has {
+						got["begin"] = linAtom(recv + ".begin")
+					}
+					if _, has := got["end"]; !has {
+						got["end"] = linAtom(recv + ".end")
+					}
+					exWritten := false
+					for _, r2 := range *al.Referrers() {
+						if fa, isFA := r2.(*ssa.FieldAddr); isFA && FieldOf(fa) != nil && NameOf(FieldOf(fa)) == "ex" && fa.Referrers() != nil {
+							for _, r3 := range *fa.Referrers() {
+								if _, isSt := r3.(*ssa.Store); isSt {
+									exWritten = true
+								}
+							}
+						}
+					}
+					if !exWritten {
+						exOK = true
+					}
+				}
+			}
+		}
 		okB := false
 		if gb, has := got["begin"]; has {
 			okB = gb.eq(want["begin"])
